@@ -87,7 +87,7 @@ ASSUME = [
     "line: the structure theorems hold for EVERY decision stream; which stream the double error term produces is observed "
     "(the executable model reproduces it with Lean Float, IEEE double) -- partial (float) for the minor-axis trajectory",
     "midpoint circle: n = point_count()/8 = round(r*cos(pi/4))+1 is floating point; the theorems take n as a parameter with the "
-    "integer hypothesis 2(n-1)^2-2(n-1)+1 <= r^2 (or n <= 1), checked for every radius of the run on the real code's point_count()",
+    "integer hypotheses 2(n-1)^2-2(n-1)+1 <= r^2 (or n <= 1) and 2 r^2 <= (2n-1)^2 (n is the nearest integer to r/sqrt 2, plus one), checked for every radius of the run on the real code's point_count()",
     "trigonometric circle: cos/sin/atan2 have no model in the kernel; count and symmetry are proven for any octant list, "
     "bbox and closeness are decided by the Spec on the real code's output only -- partial (transcendental)",
     "ellipse: semi-axes a, b with a*a, b*b < 2^32 (unsigned int products as coded) and no signed 64-bit overflow; "
@@ -127,6 +127,8 @@ def run(ctx, ops=None):
                 rad, n = int(w[3]), int(r.split()[0]) // 8
                 if not (n <= 1 or 2 * (n - 1) ** 2 - 2 * (n - 1) + 1 <= rad * rad):
                     ctx.broken.append(("assumption", "octant-bound " + o, "point_count()/8 = %d violates 2(n-1)^2-2(n-1)+1 <= r^2" % n))
+                if not (n >= 1 and 2 * rad * rad <= (2 * n - 1) ** 2):     # hypothesis of C20_circle_reaches_diagonal
+                    ctx.broken.append(("assumption", "diagonal-bound " + o, "point_count()/8 = %d violates 2 r^2 <= (2n-1)^2: the octant arc stops short of the diagonal" % n))
         # the witness theorem's input must fail on the real code exactly as the theorem says
         wi = ops.index("line " + WITNESS) if ("line " + WITNESS) in ops else None
         if wi is not None and (verdicts[wi] != "fail within-one-pixel" or " 27 8 " not in " " + impl[wi] + " "):
